@@ -12,7 +12,8 @@ RULE = ("library = 3 units (function or variable + its types) drawn by a sliding
         "subset U (all 8 subsets; variables both through the GOT (-fPIC) and through a copy relocation (default PIE build)); version 2 = every single breaking edit or removal of one unit, and every pair of edits from a reduced alphabet "
         "(first type edit, signature edit, removal) on two units. Oracle, normal mode (abicompat APP LIB1 LIB2): no used unit mutated -> exit 0 and no output; some used unit mutated -> ABI-change bit set, its name is in the report, and the "
         "incompatible bit is set when a used interface was removed; no unused interface is named. Weak mode (abicompat --weak-mode APP LIB2): no used unit mutated -> exit 0; a used unit with a type edit -> ABI-change bit set. "
-        "Non-trivial: runs in which at least one unit is mutated and U is non-empty.")
+        "Versioned stage: libv.so exports foo@V1 (compat, takes struct TA) and foo@@V2 (default, takes struct TB); an application linked against the old library references foo@V1, one linked against the new one foo@V2; "
+        "LIB2 grows TA, TB or both: the verdict (both modes) must depend exactly on the version the application references. Non-trivial: runs in which at least one unit is mutated and U is non-empty.")
 TEXT = "Full cross of used-subsets x (all singles + reduced pairs) per library; libraries enumerate the node catalogue."
 NOTE = "Weak mode cannot see removals (documented); those are only required in normal mode."
 
@@ -34,7 +35,8 @@ def stages(ctx):
     n = len(base)
     for i in range(n):
         el.append({"specs": [base[i], base[(i + 1) % n], base[(i + 2) % n]]})
-    return [("libraries-x-used-subsets-x-mutations<=2", el)]
+    ver = [{"kind": "versioned", "app": a, "mut": m} for a in ("old-app-uses-foo@V1", "new-app-uses-foo@V2") for m in (["v1"], ["v2"], ["v1", "v2"])]
+    return [("libraries-x-used-subsets-x-mutations<=2", el), ("versioned-interface-compat-and-default-version", ver)]
 
 
 def _ecls(label):
@@ -68,7 +70,52 @@ def _app_source(units, used):
     return "%s\nint main(void) {\n  int r = 0;\n%s\n  return r;\n}\n" % ("\n".join(parts), "\n".join(body))
 
 
+def _vlib(both, mut):
+    """libv.so exporting foo@V1 (+ foo@@V2 when both): the old version takes struct TA, the new one struct TB."""
+    src = ["struct TA { int a;%s };" % (" int grown;" if "v1" in mut else ""), "struct TB { long b;%s };" % (" int grown;" if "v2" in mut else ""),
+           "int foo_v1_impl(struct TA* p) { return p != 0; }", '__asm__(".symver foo_v1_impl,foo@%sV1");' % ("" if both else "@")]
+    if both:
+        src += ["int foo_v2_impl(struct TB* p) { return p != 0; }", '__asm__(".symver foo_v2_impl,foo@@V2");']
+    src.append("int zz_keep(void) { return 0; }")
+    return cbuild.compile_units([("v.c", "\n".join(src) + "\n", ["-g"])], link_flags=["-Wl,--version-script=v.map", "-Wl,-soname,libv.so"], out_name="libv.so",
+                                extra_files={"v.map": "V1 { local: *_impl; };\nV2 { } V1;\n"}, tag="c29v")
+
+
+def _versioned(ctx, e):
+    old = e["app"].startswith("old")
+    linklib = _vlib(False, []) if old else _vlib(True, [])
+    t = "TA" if old else "TB"
+    fld = "a" if old else "b"
+    app = cbuild.compile_units([("app.c", "struct %s { %s %s; };\nextern int foo(struct %s*);\nint main(void) { struct %s x; x.%s = 0; return foo(&x); }\n" % (t, "int" if old else "long", fld, t, t, fld), ["-g", "-fPIC"])],
+                               link_flags=["-pie", "-L" + os.path.dirname(linklib), "-lv"], out_name="app", kind="exe", tag="c29v")
+    lib1, lib2 = _vlib(True, []), _vlib(True, e["mut"])
+    used = "v1" if old else "v2"
+    hit = used in e["mut"]
+    fails, outs = [], {}
+    desc = "%s, LIB2 changes the type used by %s" % (e["app"], "+".join("foo@" + ("V1" if m == "v1" else "@V2") for m in e["mut"]))
+    n = 0
+    for mode, args in (("normal", [app, lib1, lib2]), ("weak", ["--weak-mode", app, lib2])):
+        rc, out, err = toolrun.run_tool(ctx, "plain", "abicompat", args, fast=True)
+        out = out.decode(errors="replace")
+        n += 1
+        if not isinstance(rc, int) or rc < 0 or rc & 3:
+            fails.append({"sig": "C29 abicompat %s %s versioned" % (toolrun.classify(rc, err)[0] if not isinstance(rc, int) or rc < 0 else "error-exit", mode), "what": "%s: rc=%s %s" % (desc, rc, err[-300:])})
+            continue
+        if hit and not (rc & 4):
+            fails.append({"sig": "C29 abicompat used-change-missed %s versioned-%s" % (mode, "compat-version" if old else "default-version"), "what": "%s: exit %s, nothing reported: %s" % (desc, rc, out[:300])})
+            k = "missed"
+        elif not hit and rc != 0:
+            fails.append({"sig": "C29 abicompat verdict-affected-by-unused %s versioned-%s" % (mode, "compat-version" if old else "default-version"), "what": "%s: exit %s: %s" % (desc, rc, out[:400])})
+            k = "flagged-unused"
+        else:
+            k = "reported" if hit else "clean"
+        outs["versioned:%s:%s" % (mode, k)] = outs.get("versioned:%s:%s" % (mode, k), 0) + 1
+    return {"evaluations": n, "nontrivial_count": n, "outcomes": outs, "failures": fails, "sample": e}
+
+
 def evaluate(ctx, e):
+    if e.get("kind") == "versioned":
+        return _versioned(ctx, e)
     specs = e["specs"]
     units = [pc.unit_from_spec(s).rename(str(i)) for i, s in enumerate(specs)]
     lib1 = ps.build_pack(list(enumerate(units)))
